@@ -269,10 +269,15 @@ pub fn run(f: &[&str]) -> Option<String> {
 		"lookup" => return lookup(f),
 		"pct" => {
 			let inp = unhex(f[3]);
-			macro_rules! go { ($m:ident, $c:ident) => { match $m::$c(&inp) { Some(v) => pct_view!(v), None => "ERR".to_string() } } }
+			macro_rules! go { ($m:ident, $c:ident) => { match $m::$c(&inp) { Some(v) => format!("{}\t~", pct_view!(v)), None => "ERR".to_string() } } }
+			// the owned route: XxxBuf::into_pct_string (text must be preserved, no panic)
+			macro_rules! go2 { ($m:ident, $c:ident) => { match $m::$c(&inp) { Some(v) => {
+				let o = g(|| v.to_owned().into_pct_string());
+				format!("{}\t{}", pct_view!(v), o.map(|p| hex(p.as_str().as_bytes())).unwrap_or("PANIC".into()))
+			}, None => "ERR".to_string() } } }
 			match (f[1], f[2]) {
-				("uri", "userinfo") => go!(u, userinfo), ("uri", "host") => go!(u, host), ("uri", "segment") => go!(u, segment), ("uri", "query") => go!(u, query), ("uri", "fragment") => go!(u, fragment),
-				("iri", "userinfo") => go!(i, userinfo), ("iri", "host") => go!(i, host), ("iri", "segment") => go!(i, segment), ("iri", "query") => go!(i, query), ("iri", "fragment") => go!(i, fragment),
+				("uri", "userinfo") => go2!(u, userinfo), ("uri", "host") => go2!(u, host), ("uri", "segment") => go!(u, segment), ("uri", "query") => go2!(u, query), ("uri", "fragment") => go2!(u, fragment),
+				("iri", "userinfo") => go2!(i, userinfo), ("iri", "host") => go2!(i, host), ("iri", "segment") => go!(i, segment), ("iri", "query") => go2!(i, query), ("iri", "fragment") => go2!(i, fragment),
 				_ => panic!("pct kind"),
 			}
 		}
